@@ -100,9 +100,9 @@ Definition v_call (c : call blob) : val :=
   | CIsFile p => VL [VT "isfile"; VS (join_path p)]
   | CExists p => VL [VT "exists"; VS (join_path p)]
   | CMakedirs p => VL [VT "makedirs"; VS (join_path p)]
-  | COpen p MR => VL [VT "open"; VS (join_path p); VT "rb"]
-  | COpen p MW => VL [VT "open"; VS (join_path p); VT "wb"]
-  | COpen p MX => VL [VT "open"; VS (join_path p); VT "xb"]
+  | COpen p MR => VL [VT "open"; VS (join_path p); VT "m-rb"]
+  | COpen p MW => VL [VT "open"; VS (join_path p); VT "m-wb"]
+  | COpen p MX => VL [VT "open"; VS (join_path p); VT "m-xb"]
   | CWrite p _ => VL [VT "write"; VS (join_path p)]
   | CRead p => VL [VT "read"; VS (join_path p)]
   | CClose p => VL [VT "close"; VS (join_path p)]
